@@ -115,12 +115,19 @@ CfgFileName(m) == CASE m = "search_yml" -> ".mockery.yml"
 NoDecoy == <<"-">>
 
 DecoyNames == {".mockery.yml", ".mockery.yaml", "envcfg.yml"}
+\* via: how the working directory is reached.  "phys": as it is; "symroot": through R/lnw, a symlink to the module
+\* root R/w; "symsub": through R/w/la, a symlink to the package directory R/w/a.  mockery is started with the LOGICAL
+\* path as cwd and $PWD; explicit config parameters are spelled through the same link.
+Vias == {"phys", "symroot", "symsub"}
 Layouts ==
-  {[cwd |-> c, mode |-> m, cfgdir |-> g, decoy |-> y, dname |-> n] :
-      c \in ModDirs, m \in Modes, g \in Dirs, y \in Dirs \cup {NoDecoy}, n \in DecoyNames}
+  {[cwd |-> c, mode |-> m, cfgdir |-> g, decoy |-> y, dname |-> n, via |-> v] :
+      c \in ModDirs, m \in Modes, g \in Dirs, y \in Dirs \cup {NoDecoy}, n \in DecoyNames, v \in Vias}
 DecoyName(l) == l.dname
 
 WellFormed(l) ==
+  /\ (l.via = "symsub" => IsPrefix(<<"w", "a">>, l.cwd))
+  /\ (l.via # "phys" => (l.decoy = NoDecoy /\ l.mode \in {"search_yml", "search_yaml", "flag_abs", "env_rel"}))
+  /\ (l.via # "phys" /\ l.mode \in ExplicitModes => l.cfgdir \in {l.cwd, <<"w">>})
   /\ l.mode \in FlagEnvModes <=> l.dname = "envcfg.yml"
   /\ l.decoy = NoDecoy \/ l.mode \notin {"search_yml", "search_yaml"} => l.dname # ".mockery.yaml"
   /\ l.mode \in SearchModes => l.cfgdir \in Ancestors(l.cwd)
@@ -137,12 +144,21 @@ CfgFiles(l) == {<<l.cfgdir, CfgFileName(l.mode), "real">>}
                \cup (IF l.decoy = NoDecoy THEN {} ELSE {<<l.decoy, DecoyName(l), "decoy">>})
 
 \* what is passed on the command line or, in the env modes, in MOCKERY_CONFIG ("" = nothing)
+\* how a directory is spelled when it is reached from the (logical) working directory, or named on the command line
+LogSegs(l, d) ==
+  CASE l.via = "symroot" /\ Len(d) >= 1 -> <<"lnw">> \o Tail(d)
+    [] l.via = "symsub" /\ IsPrefix(<<"w", "a">>, d) -> <<"w", "la">> \o SubSeq(d, 3, Len(d))
+    [] OTHER -> d
+\* how go/packages spells a package directory: module root as found from the working directory + import path
+IfSegs(l, d) == IF l.via = "symroot" THEN LogSegs(l, d) ELSE d
+LogAbs(l, d) == Abs(LogSegs(l, d))
+
 ConfigParam(l) ==
   CASE l.mode \in SearchModes -> ""
     [] l.mode \in RelModes ->
-         IF RelStr(l.cwd, l.cfgdir) = "." THEN CfgFileName(l.mode)
-         ELSE RelStr(l.cwd, l.cfgdir) \o "/" \o CfgFileName(l.mode)
-    [] OTHER -> Abs(l.cfgdir) \o "/" \o CfgFileName(l.mode)
+         IF RelStr(LogSegs(l, l.cwd), LogSegs(l, l.cfgdir)) = "." THEN CfgFileName(l.mode)
+         ELSE RelStr(LogSegs(l, l.cwd), LogSegs(l, l.cfgdir)) \o "/" \o CfgFileName(l.mode)
+    [] OTHER -> LogAbs(l, l.cfgdir) \o "/" \o CfgFileName(l.mode)
 \* flagenv modes: what MOCKERY_CONFIG holds next to the --config flag
 EnvParam(l) == IF l.mode \in FlagEnvModes THEN Abs(l.decoy) \o "/" \o DecoyName(l) ELSE ""
 
@@ -164,7 +180,10 @@ DecoyMayWin(l)  == "decoy" \in RolesAllowed(l)
 
 DocConfigDir(l)       == Abs(ConfigDirUsed(l))
 DocIfaceDir(d)        == Abs(d)
-DocIfaceDirRel(l, d)  == IF IsPrefix(ConfigDirUsed(l), d) THEN RelStr(ConfigDirUsed(l), d) ELSE UNSPEC
+\* (with the symlinked module root BETWEEN the config directory and the interface the relative path may name either
+\*  the link or its target: not specified)
+DocIfaceDirRel(l, d)  == IF l.via = "symroot" /\ ConfigDirUsed(l) = << >> THEN UNSPEC
+                         ELSE IF IsPrefix(ConfigDirUsed(l), d) THEN RelStr(ConfigDirUsed(l), d) ELSE UNSPEC
 DocIfaceFile(d)       == Abs(d) \o "/" \o SrcFile(d)
 
 -----------------------------------------------------------------------------
@@ -181,8 +200,14 @@ ImplRoleUsed(l) ==
        ELSE (CHOOSE g \in fs : TRUE)[3]
 
 ImplConfigDirDenotes(l) == ConfigDirUsed(l)
-ImplConfigDir(l)        == Abs(ImplConfigDirDenotes(l))
-ImplIfaceDirRel(l, d)   == IF IsPrefix(ImplConfigDirDenotes(l), d) THEN RelStr(ImplConfigDirDenotes(l), d) ELSE "."
+\* ... spelled the way the file was found: os.Getwd() honours $PWD, so the upward search and filepath.Abs of a relative
+\* parameter walk the LOGICAL parents; go/packages names the interface files by IfSegs.  The relative path is computed
+\* on the spellings (pathlib RelativeTo), so it degrades to "." when the two spell one directory differently -- which
+\* is the case for a config file inside a symlinked package directory (via = "symsub"): DevIfaceDirRel there.
+ImplConfigDir(l)        == LogAbs(l, ImplConfigDirDenotes(l))
+ImplIfaceDir(l, d)      == Abs(IfSegs(l, d))
+ImplIfaceDirRel(l, d)   == IF IsPrefix(LogSegs(l, ImplConfigDirDenotes(l)), IfSegs(l, d))
+                           THEN RelStr(LogSegs(l, ImplConfigDirDenotes(l)), IfSegs(l, d)) ELSE "."
 
 \* where the code-shaped binding does not denote the documented one (none since 77bca2b; kept so that the
 \* exported cases say so and a regression shows up as an unexpected, not as a predicted, deviation)
@@ -190,6 +215,8 @@ DevConfigDir(l)      == ImplConfigDirDenotes(l) # ConfigDirUsed(l)
 DevIfaceDirRel(l, d) == DocIfaceDirRel(l, d) # UNSPEC /\ ImplIfaceDirRel(l, d) # DocIfaceDirRel(l, d)
 
 \* what TLC checks about this module (ASSUMEs of TemplateResolveMC over AllLayouts)
-NoKnownDeviation(l) == ~DevConfigDir(l) /\ \A d \in ModDirs : ~DevIfaceDirRel(l, d)
+NoKnownDeviation(l) == /\ ~DevConfigDir(l)
+                       /\ \A d \in ModDirs : DevIfaceDirRel(l, d) =>
+                             l.via = "symsub" /\ IsPrefix(<<"w", "a">>, ConfigDirUsed(l))
 RealConfigIsUsed(l) == ImplRoleUsed(l) = "real" /\ "real" \in RolesAllowed(l)
 =============================================================================
